@@ -73,16 +73,19 @@ CLAIMED["C11"] = (
     "lowering a cost or raising the cap is reported.")
 
 CLAIMED["C06"] = (
-    "guard/dominance and error-propagation rules over MIR for the error clauses (double extends, inheritance cycle, missing template, include errors); block resolution itself not decided",
+    "guard/dominance and error-propagation rules over MIR for the error clauses (double extends, inheritance cycle, missing template, include errors) + who-may-write / typestate rules for the block layer vector and its depth cursor; rendered output per chain shape not decided",
     "Static rule check of the property's error clauses only: the LoadBlocks handler is guarded by is_some() on the "
     "variable that stores the loaded parent and its true side returns Err; output is discarded from a successful "
     "LoadBlocks until the parent's instructions are swapped in; load_blocks is guarded by the loaded_templates "
     "membership test, records every successful load and propagates loader/compile errors; perform_include discards "
-    "a loader error only under kind()==TemplateNotFound and reports TemplateNotFound unless ignore_missing.  Which "
-    "block definition renders for a given chain, super() order and include/import variable visibility are "
-    "value-level behaviour that static analysis does not decide; they are NOT claimed.",
+    "a loader error only under kind()==TemplateNotFound and reports TemplateNotFound unless ignore_missing.  Block "
+    "layers (I5): the per-block definition vector only grows at its end, one layer per block of each loaded parent "
+    "appended to the existing entry; depth starts at 0 and moves +1 only under depth+1<len and -1 after, or is "
+    "restored from a checkpoint; block calls and super() (after a successful push) render instructions[depth]; "
+    "super() without a further layer returns Err.  The output of a given chain shape and include/import variable "
+    "visibility are value-level behaviour that static analysis does not decide; they are NOT claimed.",
     "DESIGN.md §3 C06",
-    "Partial claim (error clauses).  Include recursion accounting is decided under C11.")
+    "Partial claim (error clauses + block layer discipline).  Include recursion accounting is decided under C11.")
 
 CLAIMED["C14"] = (
     "must-pass-through rule (process_err on the returned error for every Err exit of the interpreter loop) + error-discipline rule (no unwrap of fmt::Result in error/debug formatting) + provenance rule for Span fields + who-may-call for raw emission",
